@@ -169,6 +169,17 @@ def make_classes(mode, rec, uidgen, varlen=False):
     rlen = 1 if varlen else 4
 
     class SimIO(ioclass):
+        # the rate limiter's own clock: when a caller decided to try a reconnect (it may then have to wait for a
+        # reconnect in progress in an other thread before its own connection attempt is made)
+        @property
+        def _last_connect_attempt(self):
+            return self.__dict__.get('_lca', 0)
+
+        @_last_connect_attempt.setter
+        def _last_connect_attempt(self, value):
+            self.__dict__['_lca'] = value
+            rec.decisions.append((rec.sim.vnow(), threading.current_thread().name))
+
         if varlen and mode == 'bytes':
             def getFullReply(self, request, replyheader):
                 # variable-length protocol: the header announces a body, which is read separately
@@ -204,6 +215,7 @@ class Recorder:
     def __init__(self, sim):
         self.sim = sim
         self.calls = []
+        self.decisions = []
 
 
 class C16(Check):
@@ -227,7 +239,7 @@ class C16(Check):
                    'poll thread attempts once per pollinterval by construction']
     PROBES = ('c16.concurrent-callers', 'c16.multicomm', 'c16.late-reply', 'fault.device-close', 'fault.device-silent',
               'fault.device-refuse', 'c16.reconnect', 'c16.garbage', 'c16.bytes-mode', 'c16.string-mode',
-              'c16.two-byte-eol', 'c16.variable-length-replies')
+              'c16.two-byte-eol', 'c16.variable-length-replies', 'c16.callback-communicates')
 
     def gen_case(self, rng, tier):
         mode = rng.choice(['string', 'string', 'bytes'])
@@ -269,7 +281,8 @@ class C16(Check):
                  # a two-byte end of line can be cut in two by the segmentation of the network
                  'eol': rng.choice(['\n', '\n', '\r\n']),
                  # byte-oriented protocol with replies of variable length: getFullReply reads the body separately
-                 'varlen': rng.random() < 0.5}
+                 'varlen': rng.random() < 0.5,
+                 'cb_comm': rng.random() < 0.3}
         return {'shape': shape, 'ops': ops, 'faults': faults}
 
     def shrink_candidates(self, case):
@@ -322,7 +335,26 @@ class C16(Check):
         io = srv.secnode.modules['io']
         ctx['io'] = io
         cbcount = ctx['cbcount'] = []
-        io.registerReconnectCallback('probe', lambda: cbcount.append(sim.vnow()) or True)
+
+        def on_reconnect():
+            cbcount.append(sim.vnow())
+            if shape.get('cb_comm'):
+                # a reconnect callback re-initialising the device: it talks to it (from the thread which reconnected)
+                sim.count('c16.callback-communicates')
+                r = {'kind': 'comm', 'task': f'callback:{threading.current_thread().name}', 't0': sim.vnow(), 'uid': uidgen()}
+                rec.calls.append(r)
+                try:
+                    if mode == 'string':
+                        r['result'] = ('ok', [io.communicate(f'c{r["uid"]}')])
+                    else:
+                        r['result'] = ('ok', [io.communicate(b'C' + r['uid'].to_bytes(2, 'big') + b'?', rlen)])
+                except Exception as e:   # noqa
+                    r['result'] = ('exc', type(e).__name__, str(e)[:200], isinstance(e, CommunicationFailedError))
+                    r['connected_after'] = io.is_connected
+                r['t1'] = sim.vnow()
+                r['seq1'] = sim.next_seq()
+            return True
+        io.registerReconnectCallback('probe', on_reconnect)
         connhist = ctx['connhist'] = []
         io.addCallback('is_connected', lambda *a: connhist.append((sim.vnow(), a[0], len(a) > 1)))
         t_start = sim.vnow()
@@ -404,6 +436,19 @@ class C16(Check):
         ctx['connect_log'] = list(world.net.connect_log)
         srv.secnode.shutdown_modules()
 
+    def deadlock_is_violation(self, sim, case, ctx):
+        """the run cannot end because a call to the communicator never returns"""
+        now = sim.vnow()
+        forever = sim.failure[0] == 'deadlock'    # every task is blocked without a time-out
+        stuck = [c for c in ctx['rec'].calls if c['kind'] != 'poll' and 'result' not in c and (forever or now - c['t0'] > 60)]
+        if not stuck:
+            return None
+        c = stuck[0]
+        waits = sim.failure[1] if sim.failure[0] == 'deadlock' else [(n, st, fr[-3:]) for n, st, fr in sim.failure[1]]
+        return Violation('C16.caller-stuck', 'never-returns',
+                         f'{sim.failure[0]}: {c["kind"]} of {c["task"]} started at t={c["t0"]:.3f} has not returned at '
+                         f't={now:.3f}; tasks: {str(waits)[:1500]}')
+
     # ------------------------------------------------------------------ oracle
     def observation(self, sim, case, ctx):
         return [(c.get('uid'), c.get('result')) for c in ctx['rec'].calls], [r['cmd'] for r in ctx['dev'].rx]
@@ -427,7 +472,7 @@ class C16(Check):
             cnt[k] = cnt.get(k, 0) + 1
         calls = ctx['rec'].calls
         if any('result' not in c for c in calls if c['kind'] != 'poll'):
-            return [Violation('C16.caller-stuck', 'caller', 'a caller never returned')]
+            return []   # reported by deadlock_is_violation
 
         def token(reply):
             try:
@@ -680,14 +725,28 @@ class C16(Check):
                                          f'{c["task"]} multicomm: {d1} s requested after uid {u1}, but uid {u2} was sent '
                                          f'{sent_at[u2] - sent_at[u1]:.4f} s later'))
                     break
-        # reconnect attempts made from caller tasks respect the reconnect interval
-        attempts = [t for (t, port, _o, task) in ctx['connect_log'] if port == PORT and task.startswith('caller')]
-        for a, b in zip(attempts, attempts[1:]):
+        # reconnect attempts made from communicate() respect the reconnect interval.  An attempt is dated by the
+        # moment it was decided (check_connection), as the connection itself may have to wait for a reconnect going on
+        # in an other thread; every connection made from a caller task needs a decision of its own
+        decisions = ctx['rec'].decisions
+        for (a, ta), (b, tb) in zip(decisions, decisions[1:]):
             if b - a < shape['reconnect_interval'] - 1e-3:
                 res.append(Violation('C16.reconnect-too-often', 'simultaneous' if b - a < 0.05 else 'interval-ignored',
-                                     f'connection attempts from communicate() at t={a:.3f} and t={b:.3f}: '
+                                     f'connection attempts from communicate() decided at t={a:.3f} ({ta}) and t={b:.3f} ({tb}): '
                                      f'{b - a:.3f} s apart, reconnect interval {shape["reconnect_interval"]} s'))
                 break
+        else:
+            free = list(decisions)
+            for (t, port, _o, task) in ctx['connect_log']:
+                if port != PORT or not task.startswith('caller'):
+                    continue
+                mine = [d for d in free if d[1] == task and d[0] <= t + 1e-9]
+                if not mine:
+                    res.append(Violation('C16.reconnect-too-often', 'interval-ignored',
+                                         f'connection attempt from communicate() of {task} at t={t:.3f} without consulting '
+                                         f'the reconnect interval ({shape["reconnect_interval"]} s); attempts decided: {decisions[:6]}'))
+                    break
+                free.remove(mine[0])
         # every successful reconnect runs each registered callback exactly once
         oks = [(t, task) for (t, port, o, task) in ctx['connect_log'] if port == PORT and o == 'ok']
         all_attempts = [(t, o) for (t, port, o, _task) in ctx['connect_log'] if port == PORT]
